@@ -560,11 +560,87 @@ func (w *c20World) buildMessages(ctx context.Context, b *builder, o *c20Outcome)
 	}
 }
 
+// c20MidName is the name whose scripted answer is about 1.3 KB on the wire.
+const c20MidName = "mid.example.org."
+
+// c20MidResp returns the scripted answer for c20MidName: 80 A records.
+func c20MidResp(req *dns.Msg) (m *dns.Msg) {
+	m = &dns.Msg{}
+	m.SetReply(req)
+	for i := 0; i < 80; i++ {
+		m.Answer = append(m.Answer, &dns.A{
+			Hdr: dns.RR_Header{Name: req.Question[0].Name, Rrtype: dns.TypeA, Class: dns.ClassINET, Ttl: 10},
+			A:   net.IPv4(192, 0, 2, byte(i+1)),
+		})
+	}
+
+	return m
+}
+
+// c20FullSize is the harness's own computation of the wire size of the
+// complete, compressed answer to q (with an OPT record if q has one).
+func c20FullSize(q *dns.Msg) (n, answers int) {
+	var m *dns.Msg
+	switch {
+	case q.Question[0].Qtype == dns.TypeTXT:
+		m = c20BigResp(q)
+	case q.Question[0].Name == c20MidName:
+		m = c20MidResp(q)
+	default:
+		m = &dns.Msg{}
+		m.SetReply(q)
+		m.Answer = append(m.Answer, &dns.A{
+			Hdr: dns.RR_Header{Name: q.Question[0].Name, Rrtype: dns.TypeA, Class: dns.ClassINET, Ttl: 10},
+			A:   net.IPv4(192, 0, 2, 55),
+		})
+	}
+	if opt := q.IsEdns0(); opt != nil {
+		m.SetEdns0(opt.UDPSize(), false)
+	}
+	m.Compress = true
+	b, err := m.Pack()
+	if err != nil {
+		panic(err)
+	}
+
+	return len(b), len(m.Answer)
+}
+
+// c20CheckUDPSize is the two-sided size oracle for one UDP exchange: the
+// response must not be larger than the limit in force, min(advertised EDNS
+// buffer, configured max_udp_response_size) and never below the 512 bytes
+// every client accepts (512 without EDNS), and it must be complete, not
+// truncated, when the complete answer fits that limit.  A margin of 16 bytes
+// around the harness's own size computation is left undecided.
+func c20CheckUDPSize(q *dns.Msg, raw []byte, resp *dns.Msg, configured uint64) (problem string) {
+	limit := uint64(dns.MinMsgSize)
+	edns := 0
+	if opt := q.IsEdns0(); opt != nil {
+		edns = int(opt.UDPSize())
+		limit = max(limit, min(uint64(edns), configured))
+	}
+	full, answers := c20FullSize(q)
+	switch {
+	case uint64(len(raw)) > limit:
+		return fmt.Sprintf("the response to %s (EDNS buffer %d) has %d bytes, above the limit of %d",
+			q.Question[0].Name, edns, len(raw), limit)
+	case uint64(full)+16 <= limit && (resp.Truncated || len(resp.Answer) != answers):
+		return fmt.Sprintf("the complete answer to %s (%d records, %d bytes) fits the limit of %d bytes "+
+			"(EDNS buffer %d), but the response is truncated: TC=%v, %d answer records, %d bytes",
+			q.Question[0].Name, answers, full, limit, edns, resp.Truncated, len(resp.Answer), len(raw))
+	}
+
+	return ""
+}
+
 // c20Upstream is the final handler: it answers every query with one A record.
 func c20Upstream() dnsserver.Handler {
 	return dnsserver.HandlerFunc(func(ctx context.Context, rw dnsserver.ResponseWriter, req *dns.Msg) error {
 		if req.Question[0].Qtype == dns.TypeTXT {
 			return rw.WriteMsg(ctx, req, c20BigResp(req))
+		}
+		if req.Question[0].Name == c20MidName {
+			return rw.WriteMsg(ctx, req, c20MidResp(req))
 		}
 		resp := &dns.Msg{}
 		resp.SetReply(req)
@@ -699,7 +775,7 @@ func (w *c20World) buildServers(ctx context.Context, b *builder, o *c20Outcome) 
 
 	mtrc := &c20Metrics{}
 	answered, udpAnswered, plain := 0, 0, 0
-	var pan, where, limPb, lostPb string
+	var pan, where, limPb, lostPb, udpPb string
 	limConns := c20HistoryConns(conf)
 	synctest.Test(w.t, func(t *testing.T) {
 		for _, g := range b.serverGroups {
@@ -718,14 +794,17 @@ func (w *c20World) buildServers(ctx context.Context, b *builder, o *c20Outcome) 
 					lc = connlimiter.NewListenConfig(lc, lim)
 				}
 				baseConf := dnsserver.ConfigBase{
-					Network:        dnsserver.NetworkAny,
-					Handler:        c20Upstream(),
-					Metrics:        mtrc,
-					Disposer:       b.cloner,
-					RequestContext: &c20CtxCons{inner: dnssvc.VerifNewContextConstructor(conf.DNS.HandleTimeout.Duration)},
-					ListenConfig:   lc,
-					Name:           string(srv.Name),
-					Addr:           "127.0.0.1:53",
+					Network:  dnsserver.NetworkAny,
+					Handler:  c20Upstream(),
+					Metrics:  mtrc,
+					Disposer: b.cloner,
+					RequestContext: &c20CtxCons{
+						inner:  dnssvc.VerifNewContextConstructor(conf.DNS.HandleTimeout.Duration),
+						maxUDP: conf.DNS.MaxUDPResponseSize.Bytes(),
+					},
+					ListenConfig: lc,
+					Name:         string(srv.Name),
+					Addr:         "127.0.0.1:53",
 				}
 				var l dnssvc.Listener
 				where = fmt.Sprintf("dnssvc.NewListener(%s)", srv.Protocol)
@@ -755,7 +834,7 @@ func (w *c20World) buildServers(ctx context.Context, b *builder, o *c20Outcome) 
 					if cl := conf.RateLimit.ConnectionLimit; lim != nil && cl.Stop <= c20MaxHistoryConns {
 						lost = int(cl.Stop)
 					}
-					answered, udpAnswered, limPb, lostPb = c20Exchange(ctx, l, inner, pconn,
+					answered, udpAnswered, limPb, lostPb, udpPb = c20Exchange(ctx, l, inner, pconn,
 						baseConf.RequestContext.(*c20CtxCons), hist, lost)
 				})
 				if pan != "" {
@@ -779,9 +858,9 @@ func (w *c20World) buildServers(ctx context.Context, b *builder, o *c20Outcome) 
 			"%d of 2 pipelined TCP queries were answered (max_pipeline_count=%d enabled=%v); virtual clock, client never idle",
 			answered, conf.RateLimit.TCP.MaxPipelineCount, conf.RateLimit.TCP.Enabled)
 	}
-	if pan == "" && len(mtrc.panics) == 0 && plain > 0 && udpAnswered != 2 {
+	if pan == "" && len(mtrc.panics) == 0 && plain > 0 && udpAnswered != 4 {
 		o.bad("unserviceable", "ServerDNS udp exchange",
-			"%d of 2 UDP queries were answered (max_udp_response_size=%s)",
+			"%d of 4 UDP queries were answered (max_udp_response_size=%s)",
 			udpAnswered, conf.DNS.MaxUDPResponseSize)
 	}
 	if pan == "" && len(mtrc.panics) == 0 && limPb != "" {
@@ -793,6 +872,15 @@ func (w *c20World) buildServers(ctx context.Context, b *builder, o *c20Outcome) 
 			Detail: fmt.Sprintf("connection_limit stop=%d resume=%d, plain-DNS server behind the real limiter: "+
 				"%d connections opened (plus the listener's pending accept, %d < stop counted), one closed, then %s",
 				cl.Stop, cl.Resume, limConns, limConns+1, limPb),
+		})
+	}
+	if pan == "" && len(mtrc.panics) == 0 && udpPb != "" {
+		o.Problems = append(o.Problems, c20Pb{
+			Kind:  "unserviceable",
+			Where: "ServerDNS udp size",
+			Key:   "unserviceable/dns.max_udp_response_size-ineffective",
+			Detail: fmt.Sprintf("max_udp_response_size=%s (%d bytes) is accepted, but the plain-DNS server does not apply it: %s",
+				conf.DNS.MaxUDPResponseSize, conf.DNS.MaxUDPResponseSize.Bytes(), udpPb),
 		})
 	}
 	if pan == "" && len(mtrc.panics) == 0 && lostPb != "" {
@@ -907,7 +995,11 @@ func c20CloseErrorHistory(inner *c20Listener, n int) (problem string) {
 // c20CtxCons is the real request-context constructor of dnssvc that
 // additionally remembers the cancel functions for the teardown.
 type c20CtxCons struct {
-	inner   dnsserver.ContextConstructor
+	inner dnsserver.ContextConstructor
+
+	// maxUDP is the configured max_udp_response_size, for the size oracle.
+	maxUDP uint64
+
 	mu      sync.Mutex
 	cancels []context.CancelFunc
 }
@@ -943,7 +1035,7 @@ func c20Exchange(
 	cc *c20CtxCons,
 	histConns int,
 	lostConns int,
-) (answered, udpAnswered int, limPb, lostPb string) {
+) (answered, udpAnswered int, limPb, lostPb, udpPb string) {
 	if err := l.Start(ctx); err != nil {
 		panic(fmt.Errorf("starting: %w", err))
 	}
@@ -956,11 +1048,18 @@ func c20Exchange(
 		_ = l.Shutdown(sctx)
 	}()
 
-	// UDP: a small query and one whose answer is about 3 KiB.
-	for i, q := range []*dns.Msg{c20Query("example.org", dns.TypeA), c20Query("big.example.org", dns.TypeTXT)} {
-		if i == 1 {
-			q.SetEdns0(4096, false)
-		}
+	// UDP: a small query and a 1.3 KB answer without EDNS, then the 1.3 KB and
+	// a 3 KiB answer with an EDNS buffer of 4096.
+	udpQs := []*dns.Msg{
+		c20Query("example.org", dns.TypeA),
+		c20Query(c20MidName, dns.TypeA),
+		c20Query(c20MidName, dns.TypeA),
+		c20Query("big.example.org", dns.TypeTXT),
+	}
+	udpQs[2].SetEdns0(4096, false)
+	udpQs[3].SetEdns0(4096, false)
+	for i, q := range udpQs {
+		q.Id = uint16(200 + i)
 		p, err := q.Pack()
 		if err != nil {
 			panic(err)
@@ -978,6 +1077,9 @@ func c20Exchange(
 			m := &dns.Msg{}
 			if uerr := m.Unpack(rp); uerr == nil && m.Response && m.Id == q.Id {
 				udpAnswered++
+				if pb := c20CheckUDPSize(q, rp, m, cc.maxUDP); pb != "" && udpPb == "" {
+					udpPb = pb
+				}
 			}
 		default:
 		}
@@ -986,7 +1088,7 @@ func c20Exchange(
 	synctest.Wait()
 	cli, offer := inner.dial()
 	if !offer() {
-		return 0, udpAnswered, "", ""
+		return 0, udpAnswered, "", "", udpPb
 	}
 	defer cli.Close()
 
@@ -999,7 +1101,7 @@ func c20Exchange(
 		lostPb = c20CloseErrorHistory(inner, lostConns)
 	}
 
-	return answered, udpAnswered, limPb, lostPb
+	return answered, udpAnswered, limPb, lostPb, udpPb
 }
 
 // c20TCPQueries writes n pipelined queries to cli and counts the answers.
